@@ -9,7 +9,7 @@
 #   vsem     value-semantics scripts on the implementation alone (all ten sketch kinds): differential TESTING with sanitizers.
 #   ebmerge  (extra) members that did not compile/link with a user allocator (ebpps merge(const&), var_opt_union operator=(const&),
 #            count_min get_allocator): harness/drv_ledger_eb.cpp built once per part and run.
-# Seeded changes /verif/seeded/C19-1,2,3: all CAUGHT (lib/seedrun.py).
+# Seeded changes /verif/seeded/C19-1,2,3,4,5: all CAUGHT (lib/seedrun.py).
 #
 # Mutations confirmed caught (scratch worktree /tmp/wt_ledger = /repo + fixes/19_*.patch + fixes/03_self_assign.patch, VERIF_REPO):
 #   see MUTATIONS at the end of this file.
@@ -31,7 +31,10 @@ RULE = ('[ledger] operation scripts over 5 registers holding kll_sketch<Item> (k
         'checked against the history and caller buffers registered so that handing one to the allocator is flagged; var_opt (k in 8,16,17,32,100, all resize factors) '
         'and var_opt_union (max_k in the same set, gadget grown past every reallocation of data_/weights_/marks_, get_result, copy/move/assign, reset); '
         'growth-through-every-reallocation cases for kll, tuple, fi, req, quantiles, ebpps, hll (list->set->array, HLL_4 aux), cpc (all flavors), theta, tdigest, '
-        'count-min, density, with copies/moves/assignments/merges taken at every stage')
+        'count-min, density, with copies/moves/assignments/merges taken at every stage; set-operation objects with the tracking allocator: hll_union through every '
+        'union_impl branch (gadget list/set/HLL x source list/set/HLL x source lg_k below/equal/above the gadget\'s, lvalue and rvalue, down-sampled gadget), '
+        'get_result of every type, reset, copy/move/assign; cpc_union, theta_union, theta_intersection, theta_a_not_b, tuple_union, tuple_intersection grown through '
+        'several sources with the result taken and the operator reused')
 TRUSTED = ['effect-ledger models coq/LedgerKll.v, LedgerTup.v, LedgerFi.v, LedgerReq.v, LedgerVo.v written by hand from kll_sketch_impl.hpp / kll_helper_impl.hpp, '
            'theta_update_sketch_base_impl.hpp, reverse_purge_hash_map_impl.hpp, req_compactor_impl.hpp / req_sketch_impl.hpp and var_opt_sketch_impl.hpp (sizes and constructed sets only, no item values); tied to the code by the '
            'exact comparison of live items / live item-buffer slots / flags after every operation of every generated script',
@@ -204,7 +207,8 @@ def oracle_ledger(case, irecs, mrecs):
 # register gives it a fresh one; all digests (hash of the serialized image) taken under one token must be equal.
 # ---------------------------------------------------------------------------------------------------------------------
 KIND_NAMES = {0: 'kll', 1: 'tuple', 2: 'fi', 3: 'req', 4: 'var_opt', 5: 'quantiles', 6: 'ebpps', 7: 'hll', 8: 'cpc', 9: 'theta',
-              10: 'bloom', 11: 'var_opt_union', 12: 'tdigest', 13: 'count_min', 14: 'density'}
+              10: 'bloom', 11: 'var_opt_union', 12: 'tdigest', 13: 'count_min', 14: 'density', 15: 'hll_union', 16: 'cpc_union',
+              17: 'theta_union', 18: 'theta_intersection', 19: 'theta_a_not_b', 21: 'tuple_union', 22: 'tuple_intersection'}
 VS_PARAMS = {
     0: lambda rng: [rng.choice([8, 9, 20, 200]), 0],
     1: lambda rng: [rng.choice([5, 6]), rng.randrange(4)],
@@ -354,7 +358,7 @@ def gen_vsem(rng, tier):
         ops = [[1, 0, 7, lg, rng.randrange(3)], [1, 1, 7, rng.choice([4, 8, 12]), 0]] + [[2, rng.randrange(2), rng.randrange(10000), 1, 0] for _ in range(n)] + \
               [[14, 0], [14, 1], rng.choice([[4, 2, 0, 1, 1], [6, 1, 0, 1, 1]]), [14, 0], [14, 1], [99]]
         cases.append(dict(id='vshllmoved%d' % j, ops=ops, tags=['hll', 'assign-to-moved-from'], kind=7))
-    cases += gen_bloom_matrix(rng) + gen_growth(rng, tier)
+    cases += gen_bloom_matrix(rng) + gen_growth(rng, tier) + gen_setops(rng, tier)
     return cases
 
 
@@ -442,6 +446,55 @@ def gen_growth(rng, tier):
             if j == 2: ops += [[5, 0, 4], [14, 0], [14, 4], [6, 4, 0, 1, 4] if False else [13, 4, 4, 0], [14, 4]]
         ops += [[4, 5, 0, 0, 0], [14, 5], [18, 3, 5], [14, 3], [9, 5], [14, 5], [99]]
         cases.append(dict(id='vsunion%d_k%d' % (ui, max_k), ops=ops, kind=11, tags=['var_opt_union', 'growth']))
+    return cases
+
+
+def gen_setops(rng, tier):
+    """set-operation objects with the tracking allocator: every hll_union::union_impl branch (gadget list/set/HLL x source list/set/HLL x
+       source lg_k below / equal / above the gadget's, lvalue and rvalue), get_result of every type, reset, copy/move/assign; cpc/theta/tuple
+       unions and intersections through growth, result taken and the operator reused."""
+    cases = []
+    PRE = {'list': 3, 'set': 40, 'hll': 2500}
+    for lg_max in (8, 10):
+        for gname, gpre in PRE.items():
+            ops = [[1, 0, 15, lg_max, 0]]; pos = 1
+            combos = [(dlg, sname, mv) for dlg in (-2, 0, 2) for sname in PRE for mv in (0, 1)]
+            rng.shuffle(combos)
+            for ci, (dlg, sname, mv) in enumerate(combos):
+                ops += [[9, 0], [21, 0, pos, gpre, 7919, 1, 0]]; pos += gpre * 7919
+                if gname == 'hll' and ci % 3 == 0:
+                    # bring the gadget to a smaller lg_k first, so that equal / larger sources meet a down-sampled gadget
+                    ops += [[1, 1, 7, lg_max - 1, 0], [21, 1, pos, 2500, 104729, 1, 0], [7, 0, 1], [10, 1]]
+                ops += [[1, 1, 7, lg_max + dlg, rng.randrange(3)], [21, 1, pos + 5, PRE[sname], 104729, 1, 0], [14, 1]]
+                ops += [[8, 0, 1, 0, 0]] if mv else [[7, 0, 1], [14, 1], [10, 1]]
+                ops += [[14, 0], [18, 2, 0, ci % 3], [14, 2], [10, 2]]
+                if ci % 5 == 0: ops += [[3, 3, 0], [14, 0], [14, 3], [2, 3, 77, 1, 0], [14, 0], [5, 0, 3], [14, 0], [14, 3], [10, 3]]
+                if ci % 7 == 3: ops += [[4, 3, 0, 0, 0], [14, 3], [1, 0, 15, lg_max, 0], [6, 0, 3, 0, 0], [14, 0]]
+            ops += [[15, 0], [99]]
+            cases.append(dict(id='vshllunion_%d_%s' % (lg_max, gname), ops=ops, kind=15, tags=['hll_union', 'gadget:' + gname]))
+    # cpc / theta / tuple set operations: grow through several sources, take the result, keep going
+    for kind, src, params, sp in ((16, 8, [[10, 0], [4, 0]], [[10, 0], [8, 0], [4, 0], [11, 0]]),
+                                  (17, 9, [[5, 0], [9, 2]], [[5, 1], [9, 0], [12, 3]]),
+                                  (18, 9, [[0, 0]], [[6, 0], [9, 1]]),
+                                  (19, 9, [[0, 0]], [[6, 0], [10, 2]]),
+                                  (21, 1, [[5, 0], [7, 2]], [[5, 1], [6, 0], [7, 3]]),
+                                  (22, 1, [[0, 0]], [[5, 0], [6, 2]])):
+        for up in params:
+            ops = [[1, 0, kind] + up]; pos = 1
+            for j in range(7):
+                cnt = rng.choice([0, 3, 60, 700, 4000 if src != 1 else 900])
+                stride = rng.choice([1, 3, 7919])
+                ops += [[1, 1, src] + rng.choice(sp), [21, 1, pos if j % 2 else 1, cnt, stride, 3, 0], [14, 1]]
+                pos += 97
+                ops += [[8, 0, 1, 0, 0]] if rng.random() < 0.4 else [[7, 0, 1], [14, 1], [10, 1]]
+                ops += [[14, 0]]
+                if kind == 16: ops += [[18, 2, 0], [14, 2], [10, 2]]
+                if j == 2: ops += [[3, 3, 0], [14, 0], [14, 3]]
+                if j == 4: ops += [[5, 0, 3], [14, 0], [14, 3], [13, 3, 3, 0], [14, 3]]
+                if j == 5: ops += [[4, 4, 0, 1, 3], [14, 4], [14, 0], [10, 4]]
+                if j == 3 and kind in (17, 21): ops += [[9, 0], [14, 0]]
+            ops += [[99]]
+            cases.append(dict(id='vssetop_%s_%d_%d' % (KIND_NAMES[kind], up[0], up[1]), ops=ops, kind=kind, tags=[KIND_NAMES[kind], 'set-operation']))
     return cases
 
 def oracle_vsem(case, irecs, mrecs):
